@@ -411,3 +411,372 @@ Proof. vm_compute. repeat split. Qed.
 Example ex_legit_nonvacuous :
   In ex_b3 (n_main (run 1000 ex_cl 3 ex_g [Arrive ex_b3 ex_now; Arrive ex_b1 ex_now] (init ex_g))) /\ ex_b3 <> ex_g.
 Proof. split; [vm_compute; left; reflexivity|discriminate]. Qed.
+
+(* ================================================================== *)
+(** Second part: WHICH producer set a main-chain block was validated against.  As long as no
+    reorganisation has failed in rollforward, it is the set in force after the block's own
+    parent; after a failed rollforward it need not be (refuted below: known finding F41). *)
+Section Parent.
+  Variable iv : Z.
+  Variable cluster_of : Z -> list Z.
+  Variable cap : nat.
+  Variable genesis : block.
+
+  Notation exec_block := (exec_block iv cluster_of genesis).
+  Notation run_main := (run_main iv cluster_of genesis).
+  Notation rollforward := (rollforward iv cluster_of genesis).
+  Notation reorg := (reorg iv cluster_of genesis).
+  Notation add_internal := (add_internal iv cluster_of cap genesis).
+  Notation arrive := (arrive iv cluster_of cap genesis).
+  Notation run := (run iv cluster_of cap genesis).
+  Notation best := (best genesis).
+  Notation init := (init genesis).
+
+  Definition valid_for (u : Z) (b : block) : Prop :=
+    is_block_valid Z.eqb iv (cluster_of u) (b_signer b) (b_ts b) = true.
+
+  (** every block of the list (best first) is a child of the next one and its signer owns its
+      slot in the producer set in force after that parent *)
+  Fixpoint linked (l : list block) : Prop :=
+    match l with
+    | b :: tl => match tl with
+                 | p :: _ => b_parent b = b_id p /\ valid_for (b_id p) b /\ linked tl
+                 | [] => True
+                 end
+    | [] => True
+    end.
+
+  Definition J (s : node) : Prop := linked (n_main s) /\ n_upd s = b_id (best s).
+
+  Lemma linked_cons b l : linked l -> (l = [] \/ (b_parent b = b_id (hd genesis l) /\ valid_for (b_id (hd genesis l)) b)) ->
+    linked (b :: l).
+  Proof.
+    intros Hl H. destruct l as [|p tl]; cbn; [exact I|].
+    destruct H as [H|[H1 H2]]; [discriminate|]. cbn in H1, H2. repeat split; assumption.
+  Qed.
+
+  Lemma linked_tail b l : linked (b :: l) -> linked l.
+  Proof. destruct l as [|p tl]; cbn; [intros; exact I|]. intros (_ & _ & H). exact H. Qed.
+
+  Lemma linked_drop_until i l : linked l -> linked (drop_until i l).
+  Proof.
+    induction l as [|x l IH]; intros H; cbn [drop_until]; [exact I|].
+    destruct (b_id x =? i); [exact H|]. apply IH. eapply linked_tail. exact H.
+  Qed.
+
+  Lemma drop_until_head i l m : In m l -> b_id m = i -> exists h t, drop_until i l = h :: t /\ b_id h = i.
+  Proof.
+    induction l as [|x l IH]; intros Hin E; [destruct Hin|]. cbn [drop_until].
+    destruct (b_id x =? i) eqn:Ex.
+    - exists x, l. split; [reflexivity|]. apply Z.eqb_eq. exact Ex.
+    - destruct Hin as [->|Hin]; [rewrite E, Z.eqb_refl in Ex; discriminate|]. apply IH; assumption.
+  Qed.
+
+  (** oldest-first branch [fw] hanging below block id [u]: parent links and validity *)
+  Fixpoint chain_fw (fw : list block) (u : Z) : Prop :=
+    match fw with [] => True | x :: tl => b_parent x = u /\ chain_fw tl (b_id x) end.
+  Fixpoint valid_fw (fw : list block) (u : Z) : Prop :=
+    match fw with [] => True | x :: tl => valid_for u x /\ valid_fw tl (b_id x) end.
+  Definition last_id (fw : list block) (u : Z) : Z := fold_left (fun _ x => b_id x) fw u.
+
+  Lemma linked_rev_app : forall fw h t,
+    chain_fw fw (b_id h) -> valid_fw fw (b_id h) -> linked (h :: t) -> linked (rev fw ++ h :: t).
+  Proof.
+    induction fw as [|x tl IH]; intros h t Hc Hv Hl; cbn [rev app]; [exact Hl|].
+    rewrite <- app_assoc. cbn [app]. destruct Hc as [Hc1 Hc2]. destruct Hv as [Hv1 Hv2].
+    apply IH; [exact Hc2|exact Hv2|]. cbn. repeat split; try assumption.
+  Qed.
+
+  (* ---- executeBlock / run *)
+  Lemma exec_upd s b s1 r c : exec_block s b = (s1, r, c) ->
+    n_main s1 = n_main s /\ n_store s1 = n_store s /\ n_orph s1 = n_orph s /\
+    ((r = R_ok /\ valid_for (n_upd s) b /\ n_upd s1 = b_id b) \/
+     (r = R_exec /\ n_upd s1 = b_id (best s)) \/ (r = R_invalid /\ s1 = s)).
+  Proof.
+    intros E.
+    destruct (exec_block_cases iv cluster_of genesis s b) as [(V & _ & c' & E')|[(V & _ & c' & E')|(V & c' & E')]];
+      rewrite E' in E; inversion E; subst; clear E; repeat split; cbn.
+    - left. repeat split. exact V.
+    - right; left. split; reflexivity.
+    - right; right. split; reflexivity.
+  Qed.
+
+  Lemma connect_J s s1 b :
+    J s -> b_parent b = b_id (best s) -> n_main s1 = n_main s -> valid_for (n_upd s) b -> n_upd s1 = b_id b ->
+    J (with_main (store_block s1 b) (b :: n_main s1)).
+  Proof.
+    intros (Hl & Hu) Hp Em Hv Hu1. split; cbn; [|exact Hu1]. rewrite Em. apply linked_cons; [exact Hl|].
+    destruct (n_main s) eqn:M; [left; reflexivity|right]. unfold Accept.best in Hp, Hu. rewrite M in *.
+    cbn [hd] in *. split; [exact Hp|rewrite <- Hu; exact Hv].
+  Qed.
+
+  Lemma J_frame s s1 : J s -> n_main s1 = n_main s -> n_upd s1 = b_id (best s) -> J s1.
+  Proof. intros (Hl & Hu) Em Eu. split; [rewrite Em; exact Hl|]. unfold Accept.best in *. rewrite Em. exact Eu. Qed.
+
+  Lemma run_main_J fuel : forall s b s' r c,
+    J s -> b_parent b = b_id (best s) -> run_main fuel s b = (s', r, c) -> J s'.
+  Proof.
+    induction fuel as [|f IH]; intros s b s' r c HJ Hp E; cbn [Accept.run_main] in E;
+      destruct (exec_block s b) as [[s1 r1] c1] eqn:EX;
+      destruct (exec_upd _ _ _ _ _ EX) as (Em & Es & Eo & [(-> & Hv & Hu1)|[(-> & Hu1)|(-> & ->)]]).
+    - pose proof (connect_J s s1 b HJ Hp Em Hv Hu1) as HJ2.
+      change (is_err R_ok) with false in E. cbv iota in E.
+      cbn [n_orph n_store n_main n_errs n_upd with_main store_block with_orph] in E.
+      destruct (find_child (n_orph s1) (b_id b)) as [o|];
+        [destruct (b_no b + 1 =? b_no o)|]; inversion E; subst; exact HJ2.
+    - change (is_err R_exec) with true in E. cbv iota in E. inversion E; subst.
+      eapply J_frame; eassumption.
+    - change (is_err R_invalid) with true in E. cbv iota in E. inversion E; subst. exact HJ.
+    - pose proof (connect_J s s1 b HJ Hp Em Hv Hu1) as HJ2.
+      change (is_err R_ok) with false in E. cbv iota in E.
+      cbn [n_orph n_store n_main n_errs n_upd with_main store_block with_orph] in E.
+      destruct (find_child (n_orph s1) (b_id b)) as [o|] eqn:FC; [|inversion E; subst; exact HJ2].
+      destruct (b_no b + 1 =? b_no o); [|inversion E; subst; exact HJ2].
+      set (s3 := with_orph _ _) in E.
+      destruct (run_main f s3 o) as [[s4 r4] c4] eqn:ER4. inversion E; subst.
+      eapply IH; [| |exact ER4]; subst s3.
+      + destruct HJ2 as [H1 H2]. split; assumption.
+      + cbn. unfold find_child in FC. apply find_some_in in FC. destruct FC as [_ Hpar].
+        apply Z.eqb_eq. exact Hpar.
+    - change (is_err R_exec) with true in E. cbv iota in E. inversion E; subst.
+      eapply J_frame; eassumption.
+    - change (is_err R_invalid) with true in E. cbv iota in E. inversion E; subst. exact HJ.
+  Qed.
+
+  Lemma run_side_frame fuel : forall s b s' r last,
+    run_side fuel s b = (s', r, last) -> n_main s' = n_main s /\ n_upd s' = n_upd s.
+  Proof.
+    induction fuel as [|f IH]; intros s b s' r last E; cbn [Accept.run_side] in E;
+      cbn [n_orph n_store n_main n_errs n_upd with_main store_block with_orph] in E;
+      (destruct (find_child (n_orph s) (b_id b)) as [o|];
+        [destruct (b_no b + 1 =? b_no o)|]; try (inversion E; subst; split; reflexivity)).
+    apply IH in E. cbn in E. exact E.
+  Qed.
+
+  (* ---- reorganisation *)
+  Lemma gather_chain fuel : forall s br news olds root res,
+    chain_fw (rev news) (b_id br) ->
+    gather genesis fuel s br news olds = Some (root, res) ->
+    chain_fw (rev res) (b_id root) /\ (exists m, In m (n_main s) /\ b_id m = b_id root) /\ res <> [].
+  Proof.
+    induction fuel as [|f IH]; intros s br news olds root res Hc E; cbn [gather] in E.
+    - destruct (b_no br <=? b_no (best s)).
+      + destruct (find_no (n_main s) (b_no br)) as [m|] eqn:FN; [|discriminate].
+        destruct (b_id br =? b_id m) eqn:EI.
+        * destruct (b_no (best s) =? b_no br); [discriminate|].
+          destruct news as [|n0 news]; [discriminate|]. destruct olds; [discriminate|].
+          inversion E; subst. split; [exact Hc|]. split; [|discriminate].
+          exists m. unfold find_no in FN. apply find_some_in in FN. split; [apply FN|].
+          symmetry. apply Z.eqb_eq. exact EI.
+        * destruct (b_no br <=? 0); [discriminate|].
+          destruct (find_id (n_store s) (b_parent br)); [|discriminate].
+          destruct (b_no br - 1 =? b_no b); discriminate.
+      + destruct (b_no br <=? 0); [discriminate|].
+        destruct (find_id (n_store s) (b_parent br)); [|discriminate].
+        destruct (b_no br - 1 =? b_no b); discriminate.
+    - assert (Hstep : forall olds',
+        (if b_no br <=? 0 then None
+         else match find_id (n_store s) (b_parent br) with
+              | None => None
+              | Some p => if b_no br - 1 =? b_no p then gather genesis f s p (news ++ [br]) olds' else None
+              end) = Some (root, res) ->
+        chain_fw (rev res) (b_id root) /\ (exists m, In m (n_main s) /\ b_id m = b_id root) /\ res <> []).
+      { intros olds' E'. destruct (b_no br <=? 0); [discriminate|].
+        destruct (find_id (n_store s) (b_parent br)) as [p|] eqn:FP; [|discriminate].
+        destruct (b_no br - 1 =? b_no p); [|discriminate].
+        eapply IH; [|exact E'].
+        rewrite rev_app_distr. cbn. split; [|exact Hc].
+        unfold find_id in FP. apply find_some_in in FP. destruct FP as [_ FP]. symmetry. apply Z.eqb_eq. exact FP. }
+      destruct (b_no br <=? b_no (best s)).
+      + destruct (find_no (n_main s) (b_no br)) as [m|] eqn:FN; [|discriminate].
+        destruct (b_id br =? b_id m) eqn:EI.
+        * destruct (b_no (best s) =? b_no br); [discriminate|].
+          destruct news as [|n0 news]; [discriminate|]. destruct olds; [discriminate|].
+          inversion E; subst. split; [exact Hc|]. split; [|discriminate].
+          exists m. unfold find_no in FN. apply find_some_in in FN. split; [apply FN|].
+          symmetry. apply Z.eqb_eq. exact EI.
+        * eapply Hstep; exact E.
+      + eapply Hstep; exact E.
+  Qed.
+
+  Lemma rollforward_valid : forall l s s' r c,
+    rollforward s l = (s', r, c) ->
+    n_main s' = n_main s /\ (r = R_ok \/ r = R_reorg_fwd) /\
+    (r = R_ok -> valid_fw l (n_upd s) /\ n_upd s' = last_id l (n_upd s)).
+  Proof.
+    induction l as [|b tl IH]; intros s s' r c E; cbn [Accept.rollforward] in E.
+    - inversion E; subst. repeat split; auto.
+    - destruct (exec_block s b) as [[s1 r1] c1] eqn:EX.
+      destruct (exec_upd _ _ _ _ _ EX) as (Em & Es & Eo & [(-> & Hv & Hu1)|[(-> & Hu1)|(-> & ->)]]);
+        [change (is_err R_ok) with false in E|change (is_err R_exec) with true in E|change (is_err R_invalid) with true in E];
+        cbv iota in E.
+      + destruct (rollforward s1 tl) as [[s2 r2] c2] eqn:ER2.
+        destruct (IH _ _ _ _ ER2) as (Em2 & Hr2 & Hv2). inversion E; subst.
+        split; [congruence|]. split; [exact Hr2|]. intros Hr. destruct (Hv2 Hr) as [Hv3 Hu3].
+        cbn [valid_fw last_id fold_left]. rewrite Hu1 in Hv3, Hu3. split; [split; assumption|exact Hu3].
+      + inversion E; subst. split; [exact Em|]. split; [right; reflexivity|]. discriminate.
+      + inversion E; subst. split; [reflexivity|]. split; [right; reflexivity|]. discriminate.
+  Qed.
+
+  Lemma last_id_rev_cons x l u : last_id (rev (x :: l)) u = b_id x.
+  Proof. unfold last_id. cbn [rev]. rewrite fold_left_app. reflexivity. Qed.
+
+  Lemma reorg_J s top s' r c :
+    J s -> reorg s top = (s', r, c) -> r <> R_reorg_fwd -> J s'.
+  Proof.
+    intros (Hl & Hu) E Hr. unfold Accept.reorg in E.
+    destruct (gather genesis (S (length (n_store s))) s top [] []) as [[root news]|] eqn:G;
+      [|inversion E; subst; split; assumption].
+    destruct (gather_chain _ s top [] [] root news I G) as (Hc & (m & Hm & Em) & Hne).
+    destruct (rollforward (with_upd s (b_id root)) (rev news)) as [[s2 r2] c2] eqn:RF.
+    destruct (rollforward_valid _ _ _ _ _ RF) as (Em2 & Hr2 & Hv2).
+    destruct Hr2 as [-> | ->];
+      [change (is_err R_ok) with false in E|change (is_err R_reorg_fwd) with true in E]; cbv iota in E;
+      inversion E; subst; [|contradiction].
+    destruct (Hv2 eq_refl) as [Hv Hu2]. cbn [n_upd with_upd] in Hv, Hu2.
+    cbn [n_main with_upd] in Em2.
+    destruct (drop_until_head (b_id root) (n_main s) m Hm Em) as (h & t & Ed & Eh).
+    split; cbn [n_main n_upd with_main].
+    - rewrite Em2, Ed. rewrite <- (rev_involutive news). apply linked_rev_app.
+      + rewrite Eh. exact Hc.
+      + rewrite Eh. exact Hv.
+      + rewrite <- Ed. apply linked_drop_until. exact Hl.
+    - unfold Accept.best. cbn [n_main with_main]. destruct news as [|x news]; [contradiction|].
+      cbn [app hd]. rewrite Hu2. apply last_id_rev_cons.
+  Qed.
+
+  Lemma add_internal_J s b now s' r c cache :
+    J s -> add_internal s b now = (s', r, c, cache) -> r <> R_reorg_fwd -> J s'.
+  Proof.
+    intros HJ E Hr. unfold Accept.add_internal in E.
+    destruct (is_future (from_unix_ns iv (b_ts b)) (from_unix_ns iv now)); [inversion E; subst; exact HJ|].
+    destruct (negb (b_cid b)); [inversion E; subst; exact HJ|].
+    destruct (negb (b_sig b)); [inversion E; subst; exact HJ|].
+    destruct (negb (has_id (n_store s) (b_parent b))).
+    { inversion E; subst. unfold park. destruct (find_child (n_orph s) (b_parent b)); exact HJ. }
+    destruct ((b_no b =? b_no (best s) + 1) && (b_parent b =? b_id (best s))) eqn:C.
+    - destruct (run_main (length (n_orph s)) s b) as [[s1 r1] c1] eqn:RM. inversion E; subst.
+      eapply run_main_J; [exact HJ| |exact RM].
+      apply andb_true_iff in C. destruct C as [_ C]. apply Z.eqb_eq. exact C.
+    - destruct (run_side (length (n_orph s)) s b) as [[s1 r1] last] eqn:RS.
+      destruct (run_side_frame _ _ _ _ _ _ RS) as (Em & Eu).
+      assert (HJ1 : J s1).
+      { destruct HJ as [H1 H2]. split; [rewrite Em; exact H1|]. unfold Accept.best. rewrite Em, Eu. exact H2. }
+      destruct (is_err r1); [inversion E; subst; exact HJ1|].
+      destruct (b_no (best s1) <? b_no last); [|inversion E; subst; exact HJ1].
+      destruct (reorg s1 last) as [[s2 r2] c2] eqn:RO. inversion E; subst.
+      eapply reorg_J; eassumption.
+  Qed.
+
+  Lemma arrive_J s b now s' r c :
+    J s -> arrive s b now = (s', r, c) -> r <> R_reorg_fwd -> J s'.
+  Proof.
+    intros HJ E Hr. unfold Accept.arrive in E.
+    destruct (mem_z (b_id b) (n_errs s)); [inversion E; subst; exact HJ|].
+    destruct (has_id (n_store s) (b_id b)); [inversion E; subst; exact HJ|].
+    destruct (add_internal s b now) as [[[s1 r1] c1] cache] eqn:AI.
+    destruct (is_err r1 && cache); inversion E; subst;
+      pose proof (add_internal_J _ _ _ _ _ _ _ HJ AI Hr) as HJ1; [|exact HJ1].
+    destruct HJ1 as [H1 H2]. split; assumption.
+  Qed.
+
+  (** no arrival of the history ended in a reorganisation that failed in rollforward *)
+  Fixpoint no_failed_rollforward (evs : list event) (s : node) : Prop :=
+    match evs with
+    | [] => True
+    | Arrive b now :: tl =>
+        snd (fst (arrive s b now)) <> R_reorg_fwd /\ no_failed_rollforward tl (fst (fst (arrive s b now)))
+    end.
+
+  Lemma run_J evs : forall s, J s -> no_failed_rollforward evs s -> J (run evs s).
+  Proof.
+    induction evs as [|[b now] tl IH]; intros s HJ H; cbn [Accept.run]; [exact HJ|].
+    cbn [no_failed_rollforward] in H. destruct H as [H1 H2].
+    destruct (arrive s b now) as [[s1 r] c] eqn:A. cbn [fst snd] in *.
+    apply IH; [|exact H2]. eapply arrive_J; eassumption.
+  Qed.
+
+  Lemma linked_at : forall l pre b p post,
+    l = pre ++ b :: p :: post -> linked l -> b_parent b = b_id p /\ valid_for (b_id p) b.
+  Proof.
+    intros l pre. revert l. induction pre as [|x pre IH]; intros l b p post -> H.
+    - cbn in H. destruct H as (H1 & H2 & _). split; assumption.
+    - eapply IH; [reflexivity|]. eapply linked_tail. exact H.
+  Qed.
+
+  (** As long as no reorganisation failed in rollforward: every main-chain block is a child of
+      the block below it and its signer owns its slot in the producer set in force after THAT
+      parent (the "current" set of the property). *)
+  Theorem connected_validated_against_parent_partial evs pre b p post :
+    no_failed_rollforward evs init ->
+    n_main (run evs init) = pre ++ b :: p :: post ->
+    b_parent b = b_id p /\
+    is_block_valid Z.eqb iv (cluster_of (b_id p)) (b_signer b) (b_ts b) = true.
+  Proof.
+    intros H E. assert (HJ : J (run evs init)).
+    { apply run_J; [|exact H]. split; cbn; [exact I|reflexivity]. }
+    destruct HJ as [Hl _]. exact (linked_at _ _ _ _ _ E Hl).
+  Qed.
+End Parent.
+
+(** Without that hypothesis the statement is false of the faithful model (and of the code: the
+    corpus scenario stale-set-after-failed-reorg replays it on the real ChainService).  Main
+    chain g-1-2 under the set M = [10;20;30]; branch g-3-4-5 where block 3 elects N = [40;50;60]
+    and block 5 is signed by a non-member: the reorganisation to 5 fails after Update(4); then
+    block 6, child of 2, signed by the member of N owning its slot, is connected although its
+    signer is not in the set in force after its parent 2. *)
+Definition rf_g : block := Build_block 0 (-1) (-1) 0 true 0 true true.
+Definition rf_cl (u : Z) : list Z := if (u =? 3) || (u =? 4) || (u =? 5) then [40; 50; 60] else [10; 20; 30].
+Definition rf_ms (k : Z) : Z := ((k - 1) * 1000 + 5) * 1000000.
+Definition rf_b1 := Build_block 1 0 20 (rf_ms 1) true 1 true true.
+Definition rf_b2 := Build_block 2 1 30 (rf_ms 2) true 2 true true.
+Definition rf_b3 := Build_block 3 0 30 (rf_ms 2 + 7) true 1 true true.
+Definition rf_b4 := Build_block 4 3 40 (rf_ms 3) true 2 true true.
+Definition rf_b5 := Build_block 5 4 99 (rf_ms 4) true 3 true true.
+Definition rf_b6 := Build_block 6 2 40 (rf_ms 6) true 3 true true.
+Definition rf_now : Z := rf_ms 9.
+Definition rf_evs : list event :=
+  [Arrive rf_b1 rf_now; Arrive rf_b2 rf_now; Arrive rf_b3 rf_now; Arrive rf_b4 rf_now; Arrive rf_b5 rf_now; Arrive rf_b6 rf_now].
+
+Theorem connected_validated_against_parent_refuted :
+  exists iv cluster_of cap genesis evs pre b p post,
+    n_main (run iv cluster_of cap genesis evs (init genesis)) = pre ++ b :: p :: post /\
+    b_parent b = b_id p /\
+    is_block_valid Z.eqb iv (cluster_of (b_id p)) (b_signer b) (b_ts b) = false /\
+    ~ In (b_signer b) (cluster_of (b_id p)).
+Proof.
+  exists 1000, rf_cl, 3%nat, rf_g, rf_evs, [], rf_b6, rf_b2, [rf_b1; rf_g].
+  split; [vm_compute; reflexivity|]. split; [reflexivity|]. split; [vm_compute; reflexivity|].
+  vm_compute. intros [H|[H|[H|[]]]]; discriminate.
+Qed.
+
+Example ex_partial_nonvacuous :
+  no_failed_rollforward 1000 rf_cl 3 rf_g [Arrive rf_b1 rf_now; Arrive rf_b2 rf_now] (init rf_g) /\
+  n_main (run 1000 rf_cl 3 rf_g [Arrive rf_b1 rf_now; Arrive rf_b2 rf_now] (init rf_g)) = [] ++ rf_b2 :: rf_b1 :: [rf_g].
+Proof. vm_compute. repeat split; discriminate. Qed.
+
+(* ================================================================== *)
+(** ---- other consensus types (raftv2, sbp): which clauses of C09 their consensus-level checks
+    enforce.  The property is written for DPoS slots; for raft only the signature clause is
+    checked by these functions (producer legitimacy comes from the raft log: only the leader's
+    proposals are committed), for sbp (single block producer, development mode) none. *)
+Theorem raft_accepts_iff_signature_and_key : forall key_parses sig_ok,
+  checks_accept (raft_checks key_parses sig_ok) = true <-> sig_ok = true /\ key_parses = true.
+Proof. intros [] []; cbn; split; intros H; try discriminate; try (destruct H; discriminate); auto. Qed.
+
+(** a correctly signed block of a non-member, in a slot it does not own, two slots ahead of the
+    clock, passes all three raft checks: the membership, slot and clock clauses are refuted *)
+Theorem raft_producer_slot_clock_clauses_refuted :
+  exists iv ids signer ts now,
+    is_block_valid Z.eqb iv ids signer ts = false /\ ~ In signer ids /\
+    is_future (from_unix_ns iv ts) (from_unix_ns iv now) = true /\
+    checks_accept (raft_checks true true) = true.
+Proof.
+  exists 1000, [10; 20; 30], 99, (9000 * 1000000), (5000 * 1000000).
+  split; [vm_compute; reflexivity|]. split; [intros [H|[H|[H|[]]]]; discriminate|].
+  split; vm_compute; reflexivity.
+Qed.
+
+(** sbp accepts a block whose signature does not verify and whose key does not even parse *)
+Theorem sbp_all_clauses_refuted : checks_accept (sbp_checks false false) = true.
+Proof. reflexivity. Qed.
